@@ -837,8 +837,8 @@ def run_device(rep, prop, with_witness=True):
         label = "USBDevice(ep0 max %d%s)" % (max0, ", avoid_blockram" if avoid_bram else "")
         items = []
         stress = prop == "C20"
-        sims = simulated_scripts(rep, prop, b, max0, (30 if quick else 400) if max0 == 64 else (12 if quick else 100),
-                                 25 if quick else 50)
+        sims = simulated_scripts(rep, prop, b, max0, (30 if quick else 150) if max0 == 64 else (12 if quick else 50),
+                                 25 if quick else 40)
         with _Phase(rep, "pysim %s" % label):
             # (a) spec -> code
             for i, sc in enumerate(sims):
@@ -848,7 +848,7 @@ def run_device(rep, prop, with_witness=True):
                                 gap_prob=0.2 if stress else 0.0, stall_prob=0.3 if stress and i % 3 else 0.0)
                 items.append((tr, {"dut": label, "origin": "tlc-simulate", "n": i}))
             # (b) code -> spec: structured random host behaviours beyond the model's alphabet
-            n_rand = (30 if quick else 500) if max0 == 64 else (15 if quick else 200)
+            n_rand = (30 if quick else 200) if max0 == 64 else (15 if quick else 80)
             for i in range(n_rand):
                 sc = gen_clean(rng, prop, desc_len, max0, rng.randint(2, 6))
                 tr = runner.run(sc, gap_prob=rng.choice([0.0, 0.0, 0.3]) if not stress else rng.choice([0.0, 0.3, 0.6]),
@@ -882,7 +882,7 @@ def unit_decoder(rep, prop="C06"):
         cfg = trace_cfg(None, 64, unit=True, min_gap=min_gap, max_gap=max_gap)
         label = "USBSetupDecoder(standalone, %s, 60 MHz)" % name
         items = []
-        for i in range(20 if quick else 400):
+        for i in range(20 if quick else 200):
             g = Gen(rng, {}, 64, bulk=False)
             for _ in range(rng.randint(2, 6)):
                 s8 = [rng.randrange(256) for _ in range(8)]
